@@ -163,3 +163,34 @@ MUTANTS += [
     ("check_password: upgraded hash stored even when the password was wrong", A, "        if ok and new_hash is not None:\n", "        if new_hash is not None:\n", "refute", "check_password"),
     ("check_password: unknown user reported as a wrong password", A, "        if hash is None:\n            return None\n        if isinstance(password, str):", "        if hash is None:\n            return False\n        if isinstance(password, str):", "refute", "check_password"),
 ]
+
+
+# ---- load_if_changed: the file is re-read whenever its modification time differs from the recorded one (older or newer) ----------
+def _lic_setup(it, args):
+    from pyvc.contract import Int as _Int
+    self = args["self"]
+    now = z3.Int("mtime of the file now")
+    n = {"load": 0}
+
+    def load(i, a, k):
+        n["load"] += 1
+        return True
+
+    self.fields.update({"_path": "/some/file", "load": SStub(load, "self.load")})
+    it.genv.vars["os"] = SObj("os", fields={"path": SObj("os.path", fields={"getmtime": SStub(lambda i, a, k: SInt(now), "os.path.getmtime")})})
+    it.run.ghost.update({"n": n, "now": now})
+    return {"now": SInt(now)}
+
+
+from pyvc.contract import Int as _I  # noqa: E402
+
+CONTRACTS.append(Contract(
+    "_CommonFile.load_if_changed", f"{A}::_CommonFile.load_if_changed",
+    params={"self": Obj(fields={"_mtime": _I(lo=0)})},
+    setup=_lic_setup,
+    ensures=[("the file is re-read exactly when no time was recorded or its modification time DIFFERS from the recorded one -- also when it went backwards (restored backup)",
+              lambda it, env: z3.And(it.to_zbool(it.truth(env.lookup("result"))) == z3.Or(it.to_z3(it.resolve(env.lookup("self")).fields["_mtime"], "int") == 0, it.to_z3(it.resolve(env.lookup("self")).fields["_mtime"], "int") != it.run.ghost["now"]),
+                                     z3.BoolVal(it.run.ghost["n"]["load"] == 1) == it.to_zbool(it.truth(env.lookup("result")))))],
+    descr="any recorded and any current modification time",
+))
+MUTANTS.append(("load_if_changed: an older file on disk is not re-read", A, "        if self._mtime and self._mtime == os.path.getmtime(self._path):", "        if self._mtime and self._mtime >= os.path.getmtime(self._path):", "refute", "load_if_changed"))
